@@ -1,7 +1,6 @@
 import Pcore.Model.FormatSpan
 import Pcore.Proofs.FormatUnparse
 import Pcore.Proofs.FormatWidth
-import Mathlib.Tactic.Tauto
 /-! `Timespan.Format`: the Go format strings handed to fmt are directives fmt understands as long as the width is within fmt's limit;
     totality outside the two classes where the code faults; width of padded segments; the segments of the full format add up. -/
 namespace Pcore.Format
@@ -76,83 +75,34 @@ theorem fragFmt_ok (pad : Option Char) (w : Nat) (hw : w ≤ 1000000) (n : Int) 
       refine ⟨_, fmtD_of_parse _ n g ?_ hv⟩
       simpa [fragFmt] using hg
 
-/-! ### totality outside the two fault classes -/
+/-! ### totality -/
 
-/-- a value segment the code formats without a fault: its width is within fmt's limit, and it is not a nanosecond segment of width 0
-    that shows a remainder -/
+/-- a value segment as the (repaired) parser builds it: one of the three pad characters, a width within fmt's limit -/
 def VSeg.ok (v : VSeg) : Prop :=
-  (v.pad = none ∨ v.pad = some '0' ∨ v.pad = some ' ') ∧ v.width.getD v.kind.defaultWidth ≤ 1000000 ∧
-  ¬ (v.kind = .nano ∧ v.width = some 0 ∧ v.useTotal = false)
+  (v.pad = none ∨ v.pad = some '0' ∨ v.pad = some ' ') ∧ v.width.getD v.kind.defaultWidth ≤ 1000000
 
 def SegsOK : List Seg → Prop
   | [] => True
   | .lit _ :: rest => SegsOK rest
   | .val v :: rest => v.ok ∧ SegsOK rest
 
-/-- the side condition as a boolean, so that a concrete format discharges it by evaluation -/
-def VSeg.okb (v : VSeg) : Bool :=
-  (v.pad == none || v.pad == some '0' || v.pad == some ' ') && decide (v.width.getD v.kind.defaultWidth ≤ 1000000) &&
-  !(v.kind == .nano && v.width == some 0 && !v.useTotal)
-
-def segsOKb : List Seg → Bool
-  | [] => true
-  | .lit _ :: rest => segsOKb rest
-  | .val v :: rest => v.okb && segsOKb rest
-
-theorem VSeg.okb_sound (v : VSeg) (h : v.okb = true) : v.ok := by
-  simp only [VSeg.okb, Bool.and_eq_true, Bool.or_eq_true, beq_iff_eq, decide_eq_true_eq, Bool.not_eq_true', Bool.and_eq_false_iff,
-    Bool.not_eq_false'] at h
-  refine ⟨by tauto, h.1.2, ?_⟩
-  rintro ⟨h1, h2, h3⟩
-  rcases h.2 with (h' | h') | h'
-  · rw [h1] at h'; simp at h'
-  · rw [h2] at h'; simp at h'
-  · rw [h3] at h'; cases h'
-
-theorem segsOKb_sound : ∀ segs, segsOKb segs = true → SegsOK segs
-  | [], _ => trivial
-  | .lit _ :: rest, h => segsOKb_sound rest (by simpa [segsOKb] using h)
-  | .val v :: rest, h => by
-    simp only [segsOKb, Bool.and_eq_true] at h
-    exact ⟨VSeg.okb_sound v h.1, segsOKb_sound rest h.2⟩
-
-/-- the side condition of a format string, evaluated -/
-def spanFormatOKb (fm : Str) : Bool :=
-  match spanParse fm with
-  | some segs => segsOKb segs
-  | none => true
-
-theorem spanFormatOKb_sound (fm : Str) (h : spanFormatOKb fm = true) : ∀ segs, spanParse fm = some segs → SegsOK segs := by
-  intro segs hp
-  simp only [spanFormatOKb, hp] at h
-  exact segsOKb_sound segs h
-
 theorem defaultWidth_le (k : SegKind) : k.defaultWidth ≤ 1000000 := by cases k <;> decide
 
-theorem segValue_ok (v : VSeg) (h : v.ok) (ns : Int) : ∃ n, segValue v ns = some n := by
+theorem int64Pow10_now_pos (e : Nat) : 0 < int64Pow10 .now e := by
+  simp only [int64Pow10, SpanCode.now, Bool.not_true, Bool.and_false, Bool.false_eq_true, if_false]
+  exact Int.pow_pos (by decide)
+
+/-- after 03fcfad no segment divides by zero -/
+theorem segValue_ok (v : VSeg) (ns : Int) : ∃ n, segValue .now v ns = some n := by
   unfold segValue
   cases hk : v.kind <;> simp only
   all_goals first | exact ⟨_, rfl⟩ | skip
-  -- nano
   split
-  · rename_i hw9
-    split
+  · split
     · exact ⟨_, rfl⟩
-    · rename_i ht
+    · have := int64Pow10_now_pos (v.width.getD 9)
       split
-      · rename_i hz
-        exfalso
-        apply h.2.2
-        refine ⟨hk, ?_, by simpa using ht⟩
-        unfold int64Pow10 at hz
-        split at hz
-        · rename_i hw0
-          cases hw : v.width with
-          | none => simp [hw] at hw0
-          | some w => simp [hw] at hw0; rw [hw0]
-        · exfalso
-          have : (0 : Int) < 10 ^ (v.width.getD 9) := Int.pow_pos (by decide)
-          omega
+      · rename_i hz; omega
       · exact ⟨_, rfl⟩
   · exact ⟨_, rfl⟩
 
@@ -160,24 +110,24 @@ theorem fragAppend_ok (v : VSeg) (h : v.ok) (n : Int) : ∃ s, fragAppend v n = 
   unfold fragAppend
   simp only
   split
-  · have : ¬ v.width.getD v.kind.defaultWidth > 1000000 := by have := h.2.1; omega
+  · have : ¬ v.width.getD v.kind.defaultWidth > 1000000 := by have := h.2; omega
     simp only [this, if_false]
     exact ⟨_, rfl⟩
-  · exact fragFmt_ok v.pad _ h.2.1 n
+  · exact fragFmt_ok v.pad _ h.2 n
 
-theorem segText_ok (s : Seg) (h : match s with | .lit _ => True | .val v => v.ok) (ns : Int) : ∃ t, segText s ns = some t := by
+theorem segText_ok (s : Seg) (h : match s with | .lit _ => True | .val v => v.ok) (ns : Int) : ∃ t, segText .now s ns = some t := by
   cases s with
   | lit l => exact ⟨l, rfl⟩
   | val v =>
     simp only at h
-    obtain ⟨n, hn⟩ := segValue_ok v h ns
+    obtain ⟨n, hn⟩ := segValue_ok v ns
     simp only [segText, hn]
     have h1 := h.1
-    have h2 := h.2.1
+    have h2 := h.2
     cases hk : v.kind <;> rw [hk] at h2 <;> simp only
     all_goals first | exact fragAppend_ok v h n | exact valueFmt_ok v.pad h1 _ h2 n
 
-theorem segsText_ok : ∀ (segs : List Seg), SegsOK segs → ∀ ns, ∃ t, segsText segs ns = some t
+theorem segsText_ok : ∀ (segs : List Seg), SegsOK segs → ∀ ns, ∃ t, segsText .now segs ns = some t
   | [], _, _ => ⟨[], rfl⟩
   | .lit l :: rest, h, ns => by
     obtain ⟨t, ht⟩ := segsText_ok rest h ns
@@ -187,12 +137,107 @@ theorem segsText_ok : ∀ (segs : List Seg), SegsOK segs → ∀ ns, ∃ t, segs
     obtain ⟨a, ha⟩ := segText_ok (.val v) h.1 ns
     exact ⟨a ++ t, by simp [segsText, ha, ht]⟩
 
-theorem spanFormat2_total (segs : List Seg) (h : SegsOK segs) (ns : Int) : ∃ s, spanFormat2 segs ns = .text s := by
+theorem spanFormat2_total (segs : List Seg) (h : SegsOK segs) (ns : Int) : ∃ s, spanFormat2 .now segs ns = .text s := by
   unfold spanFormat2
   simp only
   obtain ⟨t, ht⟩ := segsText_ok segs h (if (decide (ns < 0) && decide (ns ≠ -9223372036854775808)) = true then -ns else ns)
   rw [ht]
   exact ⟨_, rfl⟩
+
+/-! ### what the repaired parser builds is `SegsOK` (fix 5257aa1: a width above 10^6 is a bad format specifier) -/
+
+theorem segsOK_appendLiteral : ∀ (segs : List Seg) (c : Char), SegsOK segs → SegsOK (appendLiteral segs c)
+  | [], c, _ => by simp [appendLiteral, SegsOK]
+  | [.lit s], c, _ => by simp [appendLiteral, SegsOK]
+  | [.val v], c, h => by simpa [appendLiteral, SegsOK] using h
+  | .lit s :: y :: rest, c, h => by
+    simp only [appendLiteral, SegsOK] at h ⊢
+    exact segsOK_appendLiteral (y :: rest) c h
+  | .val v :: y :: rest, c, h => by
+    simp only [appendLiteral, SegsOK] at h ⊢
+    exact ⟨h.1, segsOK_appendLiteral (y :: rest) c h.2⟩
+
+theorem segsOK_snoc : ∀ (segs : List Seg) (v : VSeg), SegsOK segs → v.ok → SegsOK (segs ++ [.val v])
+  | [], v, _, hv => by simp [SegsOK, hv]
+  | .lit s :: rest, v, h, hv => by simp only [List.cons_append, SegsOK] at h ⊢; exact segsOK_snoc rest v h hv
+  | .val x :: rest, v, h, hv => by simp only [List.cons_append, SegsOK] at h ⊢; exact ⟨h.1, segsOK_snoc rest v h.2 hv⟩
+
+theorem segsOK_markTotal (n : Nat) : ∀ (segs : List Seg), SegsOK segs → SegsOK (markTotal n segs)
+  | [], _ => trivial
+  | .lit s :: rest, h => by simp only [markTotal, SegsOK] at h ⊢; exact segsOK_markTotal n rest h
+  | .val v :: rest, h => by
+    simp only [markTotal, SegsOK] at h ⊢
+    refine ⟨?_, segsOK_markTotal n rest h.2⟩
+    split
+    · exact h.1
+    · exact h.1
+
+/-- the invariant of the parser's state -/
+def PS.ok (ps : PS) : Prop :=
+  SegsOK ps.segs ∧ (ps.pad = none ∨ ps.pad = some '0' ∨ ps.pad = some ' ') ∧ (∀ w, ps.width = some w → w ≤ 1000000)
+
+theorem spanStep_ok (ps ps' : PS) (c : Char) (h : ps.ok) (hs : spanStep .now ps c = some ps') : ps'.ok := by
+  unfold spanStep at hs
+  obtain ⟨h1, h2, h3⟩ := h
+  split at hs
+  · split at hs
+    · cases hs; exact ⟨h1, Or.inr (Or.inl rfl), by intro w hw; cases hw⟩
+    · cases hs; exact ⟨segsOK_appendLiteral _ _ h1, h2, h3⟩
+  · split at hs
+    · cases hs; exact ⟨segsOK_appendLiteral _ _ h1, h2, h3⟩
+    · split at hs
+      · split at hs
+        · cases hs
+        · cases hs; exact ⟨h1, Or.inl rfl, h3⟩
+      · split at hs
+        · split at hs
+          · cases hs
+          · cases hs; exact ⟨h1, Or.inr (Or.inr rfl), h3⟩
+        · split at hs
+          · rename_i k hk
+            cases hs
+            refine ⟨segsOK_snoc _ _ h1 ⟨h2, ?_⟩, h2, h3⟩
+            cases hw : ps.width with
+            | none => exact defaultWidth_le k
+            | some w => exact h3 w hw
+          · split at hs
+            · cases hs
+            · split at hs
+              · cases hs; exact ⟨h1, Or.inr (Or.inl rfl), h3⟩
+              · simp only at hs
+                split at hs
+                · cases hs
+                · rename_i hlim
+                  cases hs
+                  refine ⟨h1, h2, ?_⟩
+                  intro w hw
+                  simp only [Option.some.injEq] at hw
+                  subst hw
+                  simpa [SpanCode.now, maxFormatNumber] using hlim
+
+theorem spanSteps_ok : ∀ (l : Str) (ps ps' : PS), ps.ok → spanSteps .now ps l = some ps' → ps'.ok
+  | [], ps, ps', h, hs => by simp [spanSteps] at hs; subst hs; exact h
+  | c :: cs, ps, ps', h, hs => by
+    simp only [spanSteps] at hs
+    cases hc : spanStep .now ps c with
+    | none => simp [hc] at hs
+    | some p1 =>
+      simp only [hc, Option.bind] at hs
+      exact spanSteps_ok cs p1 ps' (spanStep_ok ps p1 c h hc) hs
+
+/-- every format the repaired parser accepts has segments the formatter handles without a fault -/
+theorem spanParse_ok (fm : Str) (segs : List Seg) (h : spanParse fm = some segs) : SegsOK segs := by
+  unfold spanParse spanParseC at h
+  cases hs : spanSteps .now ⟨[], none, .literal, some '0', none⟩ fm with
+  | none => simp [hs] at h
+  | some ps =>
+    have hok := spanSteps_ok fm _ ps (by simp [PS.ok, SegsOK]) hs
+    simp only [hs] at h
+    split at h
+    · cases h
+    · split at h
+      · cases h; exact hok.1
+      · cases h; exact segsOK_markTotal _ _ hok.1
 
 /-! ### width of a padded segment -/
 
